@@ -32,12 +32,33 @@ def rand_string(rng, maxlen=12, classes=("ascii", "high", "ydia", "tilde", "outs
     mode = rng.random()
     if mode < 0.35:
         pool = ASCII if "ascii" in classes else pools[classes[0]]
-        return "".join(rng.choice(pool) for _ in range(n))
+        return edges(rng, "".join(rng.choice(pool) for _ in range(n)))
     out = []
     for _ in range(n):
         c = rng.choice(classes)
         out.append(rng.choice(pools[c]))
-    return "".join(out)
+    return edges(rng, "".join(out))
+
+
+EDGE = "\x00 \n\t\r\x7f\x01"
+
+
+def edges(rng, s):
+    """Sometimes put a NUL / blank / control character at the end, the start or inside: whatever trims, strips or
+    treats such characters as terminators shows on exactly these strings."""
+    if s and rng.random() < 0.12:
+        r = rng.random()
+        c = rng.choice(EDGE)
+        if r < 0.5:
+            s = s[:-1] + c
+        elif r < 0.8:
+            s = c + s[1:]
+        else:
+            k = rng.randrange(len(s))
+            s = s[:k] + c + s[k + 1:]
+        if rng.random() < 0.3 and len(s) > 1:
+            s = s[:-2] + c + c
+    return s
 
 
 class MyInt(int):
